@@ -171,9 +171,20 @@ CHECKS = {
             "edge/path/position/cwd combination occurs within 3-4 files. Imports written inside @{...} of a format template are not "
             "rewritten by the AST walker (they live in a string) and are not among the positions.",
             "DESIGN.md section 4 C09"),
+    "C06": ("exploration",
+            "exhaustive cross product of a constraint grammar x a value pool x three spellings through FileBuilder::build against a "
+            "conformance predicate",
+            "88 constraints (4 primitive, 24 tuple and 6 list exemplars to depth 3; closed and half-open int/float ranges over bounds {1, 3}; "
+            "alternations of 1..4 arms from {\"a\", \"b\", 1, 8, in 1..3, in 5..6}) x 66 values (every type; sub-, super-, equal, disjoint and "
+            "wrong-typed tuples/lists; boundary values lo-1, lo, mid, hi, hi+1 in int and float; values computed by operators, calls and "
+            "select; NULL) x {inline, named constraint, let-bound exemplar}: 17 073 files built with checker and VM. Build succeeds iff the "
+            "predicate admits the value; the spellings of one constraint must agree. The whole space is run in both tiers.",
+            "Trusts the 40-line predicate written from the property text and typechecking.md. NULL against a range or alternation is left "
+            "unjudged (property text and manual differ). Recursive constraints are not exercised.",
+            "DESIGN.md section 4 C06"),
 }
 
-CLAIMED = ["C01", "C02", "C03", "C04", "C05", "C07", "C08", "C09", "C10", "C11", "C12", "C13", "C14", "C16", "C18"]
+CLAIMED = ["C01", "C02", "C03", "C04", "C05", "C06", "C07", "C08", "C09", "C10", "C11", "C12", "C13", "C14", "C16", "C18"]
 
 NOT_YET = "check not built yet in this round; design in DESIGN.md section 4 (bounded-exhaustive enumeration applies)"
 
